@@ -15,7 +15,7 @@ RULE = ("seeded histories: initial write followed by 1..6 appends of schema-comp
         "(scheme, partitioned, index, n appends, categorical label change, zero-row append) tuples")
 ASSUMPTIONS = ["rows with a null partition key are dropped (documented)",
                "within one appended batch of a partitioned dataset the row order follows the group-by (compared as multiset per batch, batches in order)"]
-CASE_TIMEOUT = 300
+CASE_TIMEOUT = 120
 
 from vf.gen import datasets as D
 from vf.gen import frames as F
@@ -72,6 +72,10 @@ def gen_cases(tier, seed):
             for j, st in enumerate(steps):
                 st["frame"]["index"] = None if j % 2 == 0 else {"kind": "int"}
             base["mixed_index_appends"] = True
+        if i % 3 == 1 and not (scheme == "drill" and base["opts"].get("partition_on")):
+            # (a drill-partitioned dataset names its key columns dirN: frames with the original names are refused either way)
+            # the appends go through a handle the caller keeps across steps (re-opened only where the step says so)
+            base["via_handle"] = True
         base["steps"] = steps
         cases.append(base)
     return cases
@@ -110,6 +114,7 @@ def run_case(case):
                 return res
         written_index = not isinstance(df0.index, pd.RangeIndex)
         batches = [df0]
+        kept = [None]
         label_change = False
         zero_append = False
         verified = 0
@@ -137,7 +142,16 @@ def run_case(case):
                 kw["partition_on"] = pcols
             with fsmon.Audit(path) as aud:
                 try:
-                    fastparquet.write(path, dfk, **kw)
+                    if case.get("via_handle"):
+                        from fastparquet.writer import reset_row_idx
+                        if kept[0] is None or st.get("reopen"):
+                            kept[0] = fastparquet.ParquetFile(path)
+                        else:
+                            counters["appends_through_a_kept_handle"] = counters.get("appends_through_a_kept_handle", 0) + 1
+                        data_ = reset_row_idx(dfk) if kept[0]._get_index() else dfk
+                        kept[0].write_row_groups(data_, st["row_group_offsets"], compression=st["compression"])
+                    else:
+                        fastparquet.write(path, dfk, **kw)
                     err = None
                 except Exception as e:
                     err = e
@@ -184,6 +198,20 @@ def run_case(case):
             except Exception as e:
                 res["failures"].append({"kind": "read_after_append_raised", **step_ctx, **C.exc_shape(e)})
                 break
+            if case.get("via_handle") and kept[0] is not None:
+                # the handle that made the append reads what a fresh open reads
+                try:
+                    got_k = kept[0].to_pandas(index=False)
+                except Exception as e:
+                    res["failures"].append({"kind": "read_through_the_appending_handle_raised", **step_ctx, **C.exc_shape(e)})
+                else:
+                    fl = T.same_table(got, got_k, check_index=False, cat_strict=False) if list(got.columns) == list(got_k.columns) \
+                        else [{"kind": "columns_differ", "fresh": [str(c) for c in got.columns], "appending_handle": [str(c) for c in got_k.columns]}]
+                    for f in fl:
+                        f.update(step_ctx)
+                        f["kind"] = "appending_handle_reads_differently_from_fresh_open:" + f["kind"]
+                    res["failures"] += fl
+                    counters["reads_through_the_appending_handle"] = counters.get("reads_through_the_appending_handle", 0) + 1
             exp_batches = []
             for b in batches:
                 e = b.reset_index() if written_index else b
@@ -239,4 +267,4 @@ def run_case(case):
 
 
 def required(tier):
-    return {"appends_verified": 300, "prefix_hashes_compared": 80, "data_files_compared": 300, "audit_events": 500, "appends_with_reordered_columns": 30}
+    return {"appends_verified": 300, "prefix_hashes_compared": 80, "data_files_compared": 300, "audit_events": 500, "appends_with_reordered_columns": 30, "appends_through_a_kept_handle": 30, "reads_through_the_appending_handle": 60}
